@@ -3,7 +3,7 @@
   `Dev.step` / `Dev.cleanup` on event lines.
 -/
 import Hidi.Proto
-import Hidi.Spec
+import Hidi.SpecAxis
 namespace Hidi
 
 inductive Pend | none | cfgEnd | ev (e : Ev) | disc
@@ -102,10 +102,10 @@ def DevSt.line (s : DevSt) (toks : List String) : DevSt × Option String :=
   | ["endcase"] =>
     let obsT : Spec.Trace := ⟨s.cfg, s.obsInit, s.obsSteps.reverse, s.obsCleanup⟩
     let modT : Spec.Trace := ⟨s.cfg, Spec.StObs.ofDev (Dev.init s.cfg), s.modSteps.reverse, s.modCleanup⟩
-    let fo := Spec.checkTrace obsT
-    let fm := Spec.checkTrace modT
-    let oo := Spec.observe obsT
-    let om := Spec.observe modT
+    let fo := Spec.checkAll obsT
+    let fm := Spec.checkAll modT
+    let oo := Spec.observeAll obsT
+    let om := Spec.observeAll modT
     let diffs := devProps.filterMap (fun p =>
       let a := Spec.obsOf p oo
       let b := Spec.obsOf p om
